@@ -11,9 +11,11 @@ import (
 	"fmt"
 	"os"
 	"path/filepath"
+	"runtime/pprof"
 	"sort"
 	"strconv"
 	"sync"
+	"sync/atomic"
 	"time"
 )
 
@@ -52,6 +54,7 @@ type Run struct {
 	exhaustive   *bool
 	floors       []floor
 	replayN      int
+	progress     atomic.Int64 // unix nanos of the last observed activity
 }
 
 type floor struct {
@@ -96,6 +99,9 @@ func Start(prop, level string) *Run {
 	if r.Tier != "quick" && r.Tier != "thorough" {
 		r.Tier = "quick"
 	}
+	if wd := envInt("VERIF_WATCHDOG_S", 300); wd > 0 {
+		r.watchdog(time.Duration(wd) * time.Second)
+	}
 	b, err := os.ReadFile(filepath.Join(verifDir(), "known_findings.json"))
 	if err == nil {
 		var all []Finding
@@ -136,13 +142,37 @@ func (r *Run) Pick(q, t int) int {
 	return q
 }
 
-func (r *Run) Rule(s string)       { r.rule = s }
-func (r *Run) Assume(s ...string)  { r.mu.Lock(); r.assumptions = append(r.assumptions, s...); r.mu.Unlock() }
-func (r *Run) Note(s string)       { r.mu.Lock(); r.notes = append(r.notes, s); r.mu.Unlock() }
-func (r *Run) Exhaustive(b bool)   { r.exhaustive = &b }
+func (r *Run) Rule(s string) { r.rule = s }
+func (r *Run) Assume(s ...string) {
+	r.mu.Lock()
+	r.assumptions = append(r.assumptions, s...)
+	r.mu.Unlock()
+}
+func (r *Run) Note(s string)         { r.mu.Lock(); r.notes = append(r.notes, s); r.mu.Unlock() }
+func (r *Run) Exhaustive(b bool)     { r.exhaustive = &b }
 func (r *Run) Extra(k string, v any) { r.mu.Lock(); r.extra[k] = v; r.mu.Unlock() }
 
-func (r *Run) Eval(n int64) { r.mu.Lock(); r.evals += n; r.mu.Unlock() }
+func (r *Run) Eval(n int64) { r.mu.Lock(); r.evals += n; r.mu.Unlock(); r.touch() }
+
+func (r *Run) touch() { r.progress.Store(time.Now().UnixNano()) }
+
+// watchdog ends a run that makes no observable progress (no Eval/Count/Distinct/Violation call)
+// for d: goroutine dump to stderr, verdict INCONCLUSIVE (exit 2) — a stall is never turned into
+// "held" and never into a violation by this generic mechanism.
+func (r *Run) watchdog(d time.Duration) {
+	r.touch()
+	go func() {
+		for {
+			time.Sleep(5 * time.Second)
+			if idle := time.Since(time.Unix(0, r.progress.Load())); idle > d {
+				fmt.Fprintf(os.Stderr, "watchdog: no progress for %s, goroutine dump follows\n", idle.Round(time.Second))
+				_ = pprof.Lookup("goroutine").WriteTo(os.Stderr, 2)
+				fmt.Printf("INCONCLUSIVE property=%s no progress for %s (stall in the code under test or in the harness); partial results discarded\n", r.Prop, idle.Round(time.Second))
+				os.Exit(2)
+			}
+		}
+	}()
+}
 
 // Nontrivial records one distinct non-trivial case (identified by key; hashed).
 func (r *Run) Nontrivial(key string) {
@@ -153,7 +183,12 @@ func (r *Run) Nontrivial(key string) {
 	r.mu.Unlock()
 }
 
-func (r *Run) Count(name string, n int64) { r.mu.Lock(); r.counters[name] += n; r.mu.Unlock() }
+func (r *Run) Count(name string, n int64) {
+	r.mu.Lock()
+	r.counters[name] += n
+	r.mu.Unlock()
+	r.touch()
+}
 
 func (r *Run) Get(name string) int64 { r.mu.Lock(); defer r.mu.Unlock(); return r.counters[name] }
 
@@ -319,6 +354,12 @@ func (r *Run) finish() int {
 		"assumptions": append([]string{"held on the executions produced by this run only; nothing is claimed about executions the workload did not produce"}, r.assumptions...),
 		"wall_s":      time.Since(r.start).Seconds(),
 		"violations":  r.violations,
+	}
+	// every listed known finding is reported on every run, reproduced or not
+	for _, f := range r.known {
+		if f.Status == "known" && r.knownHits[f.Signature] == 0 && r.Replay == "" {
+			fmt.Printf("KNOWN-FINDING: property=%s %s [%s] (not reproduced in this run)\n", r.Prop, f.What, f.Signature)
+		}
 	}
 	viol := r.violations
 	nt := len(r.nontrivial)
